@@ -49,21 +49,27 @@ func shrinkFieldJSON(v field.Value) string {
 
 // shrinkGeoArgs returns the arguments that make "SET key id ... <args>" store
 // the spatial object again. That is "object <json>", except for a point or a
-// rectangle with a coordinate that is not finite ("POINT 1 inf",
-// "BOUNDS -inf -inf inf inf"): JSON has no NaN or Infinity, AppendJSON writes
-// null, which reads back as NaN in a point and is refused in a polygon. Such
-// an object is written the way it was created, with POINT / BOUNDS.
+// rectangle that the GeoJSON reader would not give back:
+//   - a coordinate that is not finite ("POINT 1 inf", "BOUNDS -inf -inf inf
+//     inf"): JSON has no NaN or Infinity, AppendJSON writes null, which reads
+//     back as NaN in a point and is refused in a polygon;
+//   - a position outside -180..180 / -90..90 ("POINT 100 200"): POINT and
+//     BOUNDS accept it, the GeoJSON reader refuses it when the server runs
+//     with REQUIREVALID.
+//
+// Such an object is written the way it was created, with POINT / BOUNDS.
 func shrinkGeoArgs(g geojson.Object) []string {
 	finite := func(f float64) bool { return !math.IsNaN(f) && !math.IsInf(f, 0) }
 	ff := func(f float64) string { return strconv.FormatFloat(f, 'f', -1, 64) }
 	switch g := g.(type) {
 	case *geojson.SimplePoint:
-		if p := g.Base(); !finite(p.X) || !finite(p.Y) {
+		// (Valid is false for NaN and the infinities too)
+		if p := g.Base(); !p.Valid() {
 			return []string{"point", ff(p.Y), ff(p.X)}
 		}
 	case *geojson.Point:
 		p, z := g.Base(), g.Z()
-		if !finite(p.X) || !finite(p.Y) || !finite(z) {
+		if !p.Valid() || !finite(z) {
 			// only a point that has nothing but its two or three coordinates
 			switch g.JSON() {
 			case geojson.NewPoint(p).JSON():
@@ -73,8 +79,7 @@ func shrinkGeoArgs(g geojson.Object) []string {
 			}
 		}
 	case *geojson.Rect:
-		r := g.Base()
-		if !finite(r.Min.X) || !finite(r.Min.Y) || !finite(r.Max.X) || !finite(r.Max.Y) {
+		if r := g.Base(); !r.Valid() {
 			return []string{"bounds", ff(r.Min.Y), ff(r.Min.X), ff(r.Max.Y), ff(r.Max.X)}
 		}
 	}
